@@ -132,3 +132,110 @@ func containsB(l []*rosmar.Bucket, b *rosmar.Bucket, mu *sync.Mutex) bool {
 	}
 	return false
 }
+
+// ColdOpenStorm: an on-disk (or in-memory) bucket exists with NO open handle; several goroutines open it at the same
+// instant (they all miss the registry), some close again (one of them twice). Every handle that is still open must
+// work, the count must equal the open handles, and after all are closed the data must still be there.
+func ColdOpenStorm(tmp string, disk bool, goroutines, rounds int, r *rng.R) (ops int, problems []string) {
+	name := fmt.Sprintf("co%d_%d", os.Getpid(), stormSerial.Add(1))
+	url := rosmar.InMemoryURL
+	dir := ""
+	if disk {
+		dir = filepath.Join(tmp, name)
+		url = "rosmar://" + dir
+	}
+	ctx := context.Background()
+	first, err := rosmar.OpenBucket(url, name, rosmar.CreateNew)
+	if err != nil {
+		return 0, []string{"setup|" + err.Error()}
+	}
+	defer func() {
+		if b, err := rosmar.OpenBucket(url, name, rosmar.CreateOrOpen); err == nil {
+			func() { defer func() { _ = recover() }(); _ = b.CloseAndDelete(ctx) }()
+		}
+		if dir != "" {
+			_ = os.RemoveAll(dir)
+		}
+	}()
+	if err := safeSet(dsOf(first), "seed", "s"); err != nil {
+		return 0, []string{"setup|" + err.Error()}
+	}
+	first.Close(ctx) // no handle is open now (an in-memory bucket stays registered, an on-disk one does not)
+	var mu sync.Mutex
+	add := func(s string) { mu.Lock(); problems = append(problems, s); mu.Unlock() }
+	for round := 0; round < rounds; round++ {
+		start := make(chan struct{})
+		handles := make([]*rosmar.Bucket, goroutines)
+		var wg sync.WaitGroup
+		for g := 0; g < goroutines; g++ {
+			wg.Add(1)
+			go func(g int) {
+				defer wg.Done()
+				defer func() {
+					if p := recover(); p != nil {
+						add(fmt.Sprintf("panic|goroutine %d panicked: %v", g, p))
+					}
+				}()
+				<-start
+				b, err := rosmar.OpenBucket(url, name, rosmar.CreateOrOpen)
+				if err != nil {
+					add(fmt.Sprintf("open|concurrent first open of an existing %s bucket failed: %v", ifs(disk, "on-disk", "in-memory"), err))
+					return
+				}
+				handles[g] = b
+			}(g)
+		}
+		close(start)
+		wg.Wait()
+		ops += goroutines
+		var open []*rosmar.Bucket
+		for _, h := range handles {
+			if h != nil {
+				open = append(open, h)
+			}
+		}
+		if len(open) == 0 {
+			continue
+		}
+		// close all but one (one of them twice), then the survivor must still work
+		keep := open[r.Intn(len(open))]
+		twice := true
+		for _, h := range open {
+			if h == keep {
+				continue
+			}
+			h.Close(ctx)
+			if twice {
+				h.Close(ctx)
+				twice = false
+			}
+			ops++
+		}
+		counts, _ := rosmar.VerifRegistryCounts()
+		if int(counts[name]) != 1 {
+			add(fmt.Sprintf("refcount|%d handles were opened at once on a bucket with no open handle and all but one closed: the registry counts %d references", len(open), counts[name]))
+		}
+		kds := dsOf(keep)
+		if v, err := safeGet(kds, "seed"); err != nil || v != "s" {
+			add(fmt.Sprintf("survivor|the handle left open after a cold concurrent open of %d handles does not work: %q %v", len(open), v, err))
+		}
+		if err := safeSet(kds, fmt.Sprintf("r%d", round), "x"); err != nil {
+			add(fmt.Sprintf("survivor|a write through the handle left open failed: %v", err))
+		}
+		keep.Close(ctx)
+		ops++
+		if len(problems) > 0 {
+			break
+		}
+	}
+	// everything closed: the data must still be there on reopen
+	if b, err := rosmar.OpenBucket(url, name, rosmar.ReOpenExisting); err != nil {
+		add(fmt.Sprintf("reopen|after the storm the bucket cannot be reopened: %v", err))
+	} else {
+		if v, err := safeGet(dsOf(b), "seed"); err != nil || v != "s" {
+			add(fmt.Sprintf("data|after the storm the bucket's data is gone: %q %v", v, err))
+		}
+		b.Close(ctx)
+	}
+	return ops, problems
+}
